@@ -43,9 +43,19 @@ inductive EVal where
   truncate it to nanoseconds, so `_number` leaves it as it is and (fix C14-F10) it equals exactly the fine `np.datetime64` of the same instant -
   never a `datetime` / `Timestamp` / `datetime64[ns]` (`Timestamp.__eq__` truncates: it called BOTH 0 ps and 1 ps equal to `Timestamp(0)`), never a number -/
   | fdt (as : Int)
+  /-- an `np.timedelta64` in `ps` / `fs` / `as` (the duration counted in attoseconds; k5): like `fdt` left as it is by `_number`, and by the
+  F9 / F10 branch of `eq` equal exactly to the fine `np.timedelta64` of the same duration - never a `tdelta` (`1000 ps` is not `eq` to `1 ns`), a `cdelta` or a number -/
+  | ftd (as : Int)
   | nat
   | list (xs : List EVal)
   | tuple (xs : List EVal)
+  /-- an instance of a SUBCLASS of `list` / `tuple` (k5): `cls` names the class (a namedtuple class, `class L(list)`, ...; distinct classes have
+  distinct numbers, none is `list` or `tuple` itself).  The sequence branch (:72) tests `type(x) == type(y)`. -/
+  | sub (cls : Nat) (xs : List EVal)
+  /-- a `pd.Index` AS A VALUE (k5; so far only the axis labels inside a Series / DataFrame): the labels.  The `pd.Index` branch tests
+  `isinstance(y, pd.Index)`, not `type ==`: a `RangeIndex`, a `DatetimeIndex` and a plain `Index` with the same labels are `eq`, so the
+  subclass is not part of the value. -/
+  | index (labels : List Cell)
   | dict (cls : Nat) (kvs : List (String × EVal))
   | arr (shape : List Nat) (cells : List EVal)
   | series (idx : List Cell) (cells : List EVal)
@@ -92,7 +102,10 @@ mutual
     | .tdelta a, .tdelta b => a == b                       -- `x == y` on two durations
     | .cdelta a, .cdelta b => a == b                       -- two year / month `np.timedelta64`: numpy `==` (12 months to the year)
     | .fdt a, .fdt b => a == b                             -- two `np.datetime64` in ps / fs / as: numpy `==` (the instant, counted in attoseconds)
+    | .ftd a, .ftd b => a == b                             -- two `np.timedelta64` in ps / fs / as: numpy `==` (attoseconds)
     | .nat, .nat => true                                   -- `x is y`: `pd.NaT` is one object
+    | .sub c xs, .sub d ys => c == d && eqArr xs ys        -- :72 `type(x) == type(y)` on a list / tuple subclass
+    | .index i, .index j => idxEq i j                      -- pd.Index branch: `isinstance(y, pd.Index) and eq(list(x), list(y))`
     | .list xs, .list ys => eqArr xs ys                    -- :72
     | .tuple xs, .tuple ys => eqArr xs ys                  -- :72
     | .arr s xs, .arr t ys => s == t && eqArr xs ys        -- :74 (shape, then veq)
@@ -125,7 +138,10 @@ mutual
     | .tdelta d => .tdelta d
     | .cdelta d => .cdelta d
     | .fdt d => .fdt d
+    | .ftd d => .ftd d
     | .nat => .nat
+    | .sub c xs => .sub c (EVal.normList xs)
+    | .index i => .index i
     | .list xs => .list (EVal.normList xs)
     | .tuple xs => .tuple (EVal.normList xs)
     | .dict c kvs => .dict c (sortK (EVal.normKVs kvs))
